@@ -80,5 +80,37 @@ def mentions (i : Nat) : Expr → Bool
   | neg a | pow a _ | un _ a | bnot a => mentions i a
   | ite c a b => mentions i c || mentions i a || mentions i b
 
+/-- symbolic partial derivative with respect to variable `i` (its correctness, `hasDerivAt_D`, is proved in
+`Proofs/Deriv.lean`; it lives here so that the driver can evaluate it in `Float`) -/
+def D (i : Nat) : Expr → Expr
+  | num _ => num 0
+  | pi => num 0
+  | nan => num 0
+  | var j => if i = j then num 1 else num 0
+  | add a b => add (D i a) (D i b)
+  | sub a b => sub (D i a) (D i b)
+  | mul a b => add (mul (D i a) b) (mul a (D i b))
+  | div a b => div (sub (mul (D i a) b) (mul a (D i b))) (pow b 2)
+  | neg a => neg (D i a)
+  | pow a n => mul (mul (num n) (pow a (n - 1))) (D i a)
+  | rpow a b => mul (mul b (rpow a (sub b (num 1)))) (D i a)
+  | un .sin a => mul (un .cos a) (D i a)
+  | un .cos a => mul (neg (un .sin a)) (D i a)
+  | un .tan a => div (D i a) (pow (un .cos a) 2)
+  | un .exp a => mul (un .exp a) (D i a)
+  | un .log a => div (D i a) a
+  | un .sqrt a => div (D i a) (mul (num 2) (un .sqrt a))
+  | un .abs a => mul (un .sign a) (D i a)
+  | un .arctan a => div (D i a) (add (num 1) (pow a 2))
+  | un .sign _ => num 0
+  | atan2 _ _ => num 0
+  | lt _ _ => num 0
+  | le _ _ => num 0
+  | band _ _ => num 0
+  | bor _ _ => num 0
+  | bnot _ => num 0
+  | ite c a b => ite c (D i a) (D i b)
+
+
 end Expr
 end Andes
